@@ -70,7 +70,10 @@ TRUSTED = ["while a generated YAML directory is loaded, os.listdir is wrapped to
            "conversion of Enum members / EnumArrays / ints to names inside __getitem__ is run for real and checked by "
            "the oracle; the model receives the names",
            "numpy record arrays, numpy.select broadcasting and datetime64 comparison are modelled as list operations"]
-ASSUMPTIONS = ["parameter values are None or dyadic numbers (multiples of 1/4, |x| < 2^15), sent to the model as 4*x",
+ASSUMPTIONS = ["indexing by DATES is not generated on groups whose members are nodes that declare their own members in "
+               "different orders (the as-of variant stacks the records with numpy.asarray, which cannot combine "
+               "different field orders: refused with varying exceptions, unmodelled); name vectors are",
+               "parameter values are None or dyadic numbers (multiples of 1/4, |x| < 2^15), sent to the model as 4*x",
                "child names are ASCII identifiers that are not attributes of numpy arrays; dated members are named "
                "before_YYYY_MM_DD / after_YYYY_MM_DD (plus a few names without a date, which numpy reads as NaT)",
                "answers of the system-view and formula routes after an in-place mutation of the live tree are "
@@ -160,7 +163,8 @@ def cop(o):
     elif k == "reform":
         term = "NewReform"
     elif k == "modify":
-        ups = [f"({cpath(u['path'])}, {cupd(u)})" for u in o["ups"]]
+        ups = [f"(MAdd {cpath(u['path'])} {cstr(u['name'])} {ctree(u['tree'])})" if u.get("kind") == "add"
+               else f"(MUpd {cpath(u['path'])} {cupd(u)})" for u in o["ups"]]
         term = f"(Modify {clist(ups)} {cbool(o['returns'])})"
     else:
         term = f"(Poke {cpath(o['path'])} {cupd(o)})"
@@ -449,6 +453,15 @@ def update_at(root, u):
     x.update(start=mk_instant(u["start"]), stop=None if u["stop"] is None else mk_instant(u["stop"]), value=u["v"])
 
 
+def add_at(root, u):
+    """parameters.<path>.add_child(name, <a new parameter / node / scale built from data>)"""
+    from openfisca_core.parameters import helpers
+    x = root
+    for n in u["path"]:
+        x = getattr(x, n)
+    x.add_child(u["name"], helpers._parse_child(".".join(u["path"] + [u["name"]]), tree_data(u["tree"]), None))
+
+
 def snapshot_others(systems, me, dates):
     """what every OTHER system's own tree defines at the dates (for the frame part of the oracle)"""
     out = []
@@ -503,9 +516,12 @@ def exec_ops(systems, ops, out):
             elif k == "modify":
                 def modifier(parameters, o=o):
                     for u in o["ups"]:
-                        update_at(parameters, u)
+                        if u.get("kind") == "add":
+                            add_at(parameters, u)
+                        else:
+                            update_at(parameters, u)
                     return parameters if o["returns"] else None
-                dates = sorted({u["start"] for u in o["ups"]})
+                dates = sorted({u["start"] for u in o["ups"] if u.get("kind") != "add"}) or [o["ups"][0].get("at", "2000-01-01")]
                 before = snapshot_others(systems, system, dates)
                 try:
                     system.modify_parameters(modifier)
@@ -552,6 +568,40 @@ def member(node, k):
             if n == k:
                 return c
     return None
+
+
+def is_node(v):
+    return isinstance(v, list) and bool(v) and v[0] == "node"
+
+
+def homogeneous(level):
+    """The documented condition for fancy indexing, on rendered members: at every level all numbers, or all
+    nodes with the same member names (as sets) whose members are homogeneous in turn."""
+    if not level:
+        return False
+    if is_node(level[0]):
+        names = {n for n, _ in level[0][1]}
+        if not all(is_node(x) and {n for n, _ in x[1]} == names for x in level):
+            return False
+        return homogeneous([c for x in level for _, c in x[1]])
+    return all(isinstance(x, int) and not isinstance(x, bool) for x in level)
+
+
+def record_field_step(ref, tail):
+    """some 'field' step is applied while the rows are still records of records (constructor defect)"""
+    rows = [ref["members"].get(k) for k in tail["keys"]]
+    for st in tail["steps"]:
+        if st[0] == "field":
+            nxt = [member(r, st[1]) for r in rows]
+            if any(is_node(x) for x in nxt):
+                return True
+            rows = nxt
+        else:
+            keys = st[1] * len(rows) if len(st[1]) == 1 else st[1]
+            if len(rows) == 1:
+                rows = rows * len(keys)
+            rows = [member(r, k) for r, k in zip(rows, keys)]
+    return False
 
 
 def has_empty_node(v):
@@ -637,7 +687,7 @@ def oracle(c, obs):
             if k == "modify" and len(a) > 2 and a[2]:
                 j, d = a[2][0]
                 return (f"frame: operation {n} (modify_parameters of system {me}, updates "
-                        f"{[(u['path'], u.get('via', 'update'), u['start'], u['v']) for u in o['ups']]}) changed what "
+                        f"{[(u['path'], u.get('via', u.get('kind')), u.get('start'), u.get('v')) for u in o['ups']]}) changed what "
                         f"system {j}'s own tree defines at {d}: a modifier works on a copy")
             if not is_err(a[0]) and (k == "load" or o["returns"]):
                 tainted.discard(me)
@@ -676,9 +726,15 @@ def oracle(c, obs):
                 if not is_err(got):
                     return f"vector: {where} with keys {tail['keys']} {tail['steps']} has a key without member but gives {got}"
             elif is_err(got):
-                # homogeneity / broadcasting refusals are the code's documented limits; a record-array
-                # field of a record array is the constructor defect reported with C07: not claimed
-                continue
+                # Refusals are the code's documented limits when the group is not homogeneous at the date
+                # (members of different kinds or with different member NAMES - their order is no reason).
+                # A field that is itself a record array hits the constructor defect reported with C07:
+                # not claimed either.
+                field_of_records = any(isinstance(r, list) and r and r[0] == "node" for r in exp[1]) and \
+                    any(st[0] == "field" for st in tail["steps"])
+                if homogeneous(list(ref["members"].values())) and not field_of_records and not record_field_step(ref, tail):
+                    return (f"vector: {where} with keys {tail['keys']} {tail['steps']} raises {got.kind} ({got.msg}) "
+                            f"on a homogeneous group; the scalar lookups give {exp}")
             elif got != exp:
                 return (f"vector: {where} with keys {tail['keys']} {tail['steps']} gives {got}; the scalar lookups "
                         f"give {exp}")
@@ -781,8 +837,10 @@ def gen_group(rng, pool, depth):
     def level(d, names_by_level):
         if d == 0:
             return gen_leaf(rng, pool, defined=rng.random() < (0.8 if depth == 1 else 0.97))
-        return {"t": "node", "layout": "file",
-                "children": [[n, level(d - 1, names_by_level)] for n in names_by_level[d - 1]]}
+        names = list(names_by_level[d - 1])
+        if rng.random() < 0.5:
+            rng.shuffle(names)            # siblings declare the same members, each in its own order
+        return {"t": "node", "layout": "file", "children": [[n, level(d - 1, names_by_level)] for n in names]}
     names_by_level = [rng.sample(FNAMES, rng.choice([1, 2, 2, 3])) for _ in range(depth - 1)]
     names_by_level.append(rng.sample(ZNAMES, rng.choice([1, 2, 3, 3, 4])))
     g = level(depth, names_by_level)
@@ -907,6 +965,15 @@ def group_depth(t):
     return d
 
 
+def same_orders(children):
+    """do sibling nodes declare their members in the same order, at every level?"""
+    nodes = [c for _, c in children if c["t"] == "node"]
+    if not nodes:
+        return True
+    orders = {tuple(n for n, _ in c["children"]) for c in nodes}
+    return len(orders) == 1 and same_orders([x for c in nodes for x in c["children"]])
+
+
 def gen_tail(rng, sub):
     """A tail for a read that ends on [sub]."""
     if sub["t"] != "node" or rng.random() < 0.25:
@@ -914,7 +981,7 @@ def gen_tail(rng, sub):
             return {"k": "whole"}
         return {"k": "vec", "keys": ["z1"], "kind": "str", "universe": [], "steps": []}   # a leaf / scale indexed
     names = [n for n, _ in sub["children"]]
-    if sub.get("asof") or rng.random() < 0.04:
+    if sub.get("asof") or (rng.random() < 0.04 and same_orders(sub["children"])):
         ds = set()
         for n in names:
             d = parse_after(n)
@@ -1014,6 +1081,56 @@ def gen_update(rng, tree, pool, bad=False):
             "stop": iso(b) if rng.random() < 0.5 else None, "v": v}
 
 
+def reshuffled_copy(rng, t, pool):
+    """Same structure as [t] with other values and, at every level, another declaration order."""
+    if t["t"] != "node":
+        return gen_leaf(rng, pool, defined=True) if t["t"] == "param" else t
+    ch = [[n, reshuffled_copy(rng, c, pool)] for n, c in t["children"]]
+    rng.shuffle(ch)
+    return {"t": "node", "layout": "file", "children": ch}
+
+
+def gen_add(rng, tree, pool):
+    """add_child in a modifier: mostly a new sibling sub-group of a group of depth >= 2 (same members as its
+    siblings, declared in another order); sometimes a new leaf somewhere, or a name that is taken."""
+    paths = all_paths(tree)
+    groups = [(p, s) for p, s in paths if s.get("group") and s["children"] and s["children"][0][1]["t"] == "node"]
+    r = rng.random()
+    if groups and r < 0.7:
+        p, g = rng.choice(groups)
+        free = [n for n in ZNAMES + ["lodger", "owner"] if n not in dict(g["children"])]
+        return {"kind": "add", "path": p, "name": rng.choice(free), "tree": reshuffled_copy(rng, rng.choice(g["children"])[1], pool)}
+    nodes = [(p, s) for p, s in paths if s["t"] == "node"]
+    p, nd = rng.choice(nodes)
+    taken = [n for n, _ in nd["children"]]
+    if taken and r < 0.8:
+        return {"kind": "add", "path": p, "name": rng.choice(taken), "tree": gen_leaf(rng, pool, True)}     # ValueError
+    if r < 0.9:
+        leaves = [q for q, s in paths if s["t"] != "node"]
+        if leaves:
+            return {"kind": "add", "path": rng.choice(leaves), "name": "more", "tree": gen_leaf(rng, pool, True)}
+    return {"kind": "add", "path": p, "name": rng.choice([n for n in ["more", "other", "lodger"] if n not in taken]),
+            "tree": gen_leaf(rng, pool, True)}
+
+
+def shape_after(tree, ups):
+    """the shape of the tree after the modifier items (None when one of them is refused)"""
+    import copy
+    t = copy.deepcopy(tree)
+    for u in ups:
+        if u.get("kind") != "add":
+            continue
+        x = t
+        for n in u["path"]:
+            x = dict(x["children"]).get(n) if x["t"] == "node" else None
+            if x is None:
+                return None
+        if x["t"] != "node" or u["name"] in dict(x["children"]):
+            return None
+        x["children"].append([u["name"], u["tree"]])
+    return t
+
+
 def gen_case(rng):
     """One baseline (system 0) and up to three reforms (over the baseline or over a reform); every operation
     names its system.  shape[k]: the tree system k holds (for choosing paths); base[k]: its baseline."""
@@ -1090,13 +1207,29 @@ def gen_case(rng):
             ups = [gen_update(rng, src, pool) for _ in range(rng.choice([1, 1, 2, 3]))]
             if bad:
                 ups.insert(rng.randrange(len(ups) + 1), gen_update(rng, src, pool, bad=True))
+            if rng.random() < 0.35:
+                ups.insert(rng.randrange(len(ups) + 1), gen_add(rng, src, pool))
             returns = rng.random() < 0.94
             ops.append({"op": "modify", "sys": k, "ups": ups, "returns": returns})
-            if base[k] is not None and returns and not bad:
-                shape[k] = src
+            after = shape_after(src, ups)
+            if base[k] is not None and returns and not bad and after is not None:
+                shape[k] = after
             for u in ups:
-                dates = sorted(set(dates) | {O(u["start"])} | ({O(u["stop"]) + 1} if u["stop"] else set()))
+                if u.get("kind") != "add":
+                    dates = sorted(set(dates) | {O(u["start"])} | ({O(u["stop"]) + 1} if u["stop"] else set()))
             changed = k
+            added = [u for u in ups if u.get("kind") == "add" and u["tree"]["t"] == "node"]
+            if added and shape[k] is after and rng.random() < 0.9:
+                # two-level lookups on the group that got a new sub-group, the new one included
+                u = added[0]
+                grp = dict((tuple(p), s_) for p, s_ in all_paths(shape[k]))[tuple(u["path"])]
+                for _ in range(rng.choice([1, 2])):
+                    o = gen_read(rng, shape[k], hot, dates, path=u["path"])
+                    o["sys"] = k
+                    if o["tail"]["k"] == "vec" and grp["children"] and o["tail"]["keys"] and o["tail"]["kind"] != "int":
+                        o["tail"]["keys"][rng.randrange(len(o["tail"]["keys"]))] = u["name"]
+                        o["tail"]["universe"] = [n for n, _ in grp["children"]]
+                    ops.append(o)
         else:
             u = gen_update(rng, shape[k], pool, bad=rng.random() < 0.1)
             ops.append(dict(u, op="poke", sys=k))
